@@ -56,7 +56,8 @@ PROPS = 'org.freedesktop.DBus.Properties'
 BASIC = 'ybnqiuxtdsog'
 INT_RANGE = {'y': (0, 255), 'n': (-2**15, 2**15 - 1), 'q': (0, 2**16 - 1), 'i': (-2**31, 2**31 - 1),
              'u': (0, 2**32 - 1), 'x': (-2**63, 2**63 - 1), 't': (0, 2**64 - 1)}
-SIGS = list(BASIC) + ['as', 'v']
+CONTAINER_SIGS = ['ai', 'av', 'a{sv}', '(is)', 'aas', 'ay', 'a{ss}']
+SIGS = list(BASIC) + ['as', 'v'] + CONTAINER_SIGS
 IFACE_POOL = ['org.a', 'org.ab', 'org.abc', 'org.b', 'com.x.Y']
 PNAME_POOL = ['bc', 'c', 'b', 'abc', 'P', 'Name', 'q_1']
 
@@ -68,6 +69,13 @@ def dbl_bits(f):
 
 def bits_dbl(b):
     return struct.unpack('<d', struct.pack('<Q', b))[0]
+
+
+def wrapper_class(code):
+    from txdbus import marshal
+    return {'y': marshal.Byte, 'b': marshal.Boolean, 'n': marshal.Int16, 'q': marshal.UInt16,
+            'i': marshal.Int32, 'u': marshal.UInt32, 'x': marshal.Int64, 't': marshal.UInt64,
+            'o': marshal.ObjectPath, 'g': marshal.Signature}[code]
 
 
 def to_py(v):
@@ -85,12 +93,30 @@ def to_py(v):
         return bits_dbl(int(v[1]))
     if t == 'L':
         return list(v[1])
+    if t == 'W':                       # instance of a marshal wrapper class
+        return wrapper_class(v[1])(v[2])
+    if t == 'X':
+        return [to_py(e) for e in v[1]]
+    if t == 'T':
+        return tuple(to_py(e) for e in v[1])
+    if t == 'K':
+        return {k: to_py(e) for k, e in v[1]}
+    if t == 'Y':
+        return [list(e) for e in v[1]]
     raise ValueError(v)
+
+
+def _scalar(x):
+    return isinstance(x, (bool, int, float, str)) and not hasattr(x, 'dbusSignature')
 
 
 def from_py(x):
     if x is None:
         return ['N']
+    if hasattr(x, 'dbusSignature') and isinstance(x, int):
+        return ['W', x.dbusSignature, int(x)]
+    if hasattr(x, 'dbusSignature') and isinstance(x, str):
+        return ['W', x.dbusSignature, str(x)]
     if isinstance(x, bool):
         return ['B', bool(x)]
     if isinstance(x, int):
@@ -101,7 +127,26 @@ def from_py(x):
         return ['S', str(x)]
     if isinstance(x, list) and all(isinstance(e, str) for e in x):
         return ['L', [str(e) for e in x]]
+    if isinstance(x, list) and all(_scalar(e) for e in x):
+        return ['X', [from_py(e) for e in x]]
+    if isinstance(x, list) and all(isinstance(e, list) and all(isinstance(f, str) for f in e) for e in x):
+        return ['Y', [[str(f) for f in e] for e in x]]
+    if isinstance(x, tuple) and all(_scalar(e) for e in x):
+        return ['T', [from_py(e) for e in x]]
+    if isinstance(x, dict) and all(isinstance(k, str) and _scalar(e) for k, e in x.items()):
+        return ['K', [[k, from_py(e)] for k, e in x.items()]]
     return ['?', repr(x)]
+
+
+def plain(v):
+    """the value a peer decodes: wrapper instances lose their class (Boolean -> bool), tuples arrive as lists"""
+    if v[0] == 'W':
+        if isinstance(v[2], str):
+            return ['S', v[2]]
+        return ['B', v[2] != 0] if v[1] == 'b' else ['I', v[2]]
+    if v[0] == 'T':
+        return from_py([to_py(e) for e in v[1]])
+    return v
 
 
 def hx(s):
@@ -122,6 +167,16 @@ def tok(v):
         return 'D%d' % v[1]
     if t == 'L':
         return 'L:' + ','.join(hx(e) for e in v[1])
+    if t == 'W':
+        return 'W%s%s' % (v[1], tok(['S', v[2]] if isinstance(v[2], str) else ['I', v[2]]))
+    if t == 'X':
+        return 'X:' + ','.join(tok(e) for e in v[1])
+    if t == 'T':
+        return 'T:' + ','.join(tok(e) for e in v[1])
+    if t == 'K':
+        return 'K:' + ','.join('%s=%s' % (hx(k), tok(e)) for k, e in v[1])
+    if t == 'Y':
+        return 'Y:' + ';'.join(','.join(hx(f) for f in e) if e else '_' for e in v[1])
     return '?' + hx(v[1])
 
 
@@ -171,40 +226,73 @@ def is_signature(s):
     return True
 
 
-def variant_ok(v):
-    t = v[0]
-    if t == 'I':
-        return -2**63 <= v[1] < 2**64
-    if t in 'BD':
-        return True
-    if t == 'S':
-        return '\0' not in v[1]
-    if t == 'L':
-        return all('\0' not in e for e in v[1])
+def split_types(sig):
+    out = []
+    k = 0
+    while k < len(sig):
+        e = _one_type(sig, k)
+        if e == -1:
+            return None
+        out.append(sig[k:e])
+        k = e
+    return out
+
+
+def py_has_type(sig, x):
+    """the Python value x (as a peer would have decoded it, or a valid wrapper instance) is a value of the
+    single complete type `sig` (DBus specification)"""
+    if hasattr(x, 'dbusSignature'):
+        own = x.dbusSignature
+        base = int(x) if isinstance(x, int) else str(x)
+        if own == 'b':
+            base = bool(x)
+        return own in BASIC and py_has_type(own, base) and py_has_type(sig, base)
+    if sig in INT_RANGE:
+        return isinstance(x, int) and not isinstance(x, bool) and INT_RANGE[sig][0] <= x <= INT_RANGE[sig][1]
+    if sig == 'b':
+        return isinstance(x, bool)
+    if sig == 'd':
+        return isinstance(x, float)
+    if sig == 's':
+        return isinstance(x, str) and '\0' not in x
+    if sig == 'o':
+        return isinstance(x, str) and valid_path(x)
+    if sig == 'g':
+        return isinstance(x, str) and len(x) <= 255 and is_signature(x)
+    if sig == 'v':
+        if isinstance(x, bool) or isinstance(x, float):
+            return True
+        if isinstance(x, int):
+            return -2**63 <= x < 2**64
+        if isinstance(x, str):
+            return '\0' not in x
+        if isinstance(x, (list, tuple)):
+            return all(py_has_type('v', e) for e in x)
+        if isinstance(x, dict):
+            return all(isinstance(k, str) and '\0' not in k and py_has_type('v', e) for k, e in x.items())
+        return False
+    if sig.startswith('a{') and sig.endswith('}'):
+        inner = split_types(sig[2:-1])
+        return (isinstance(x, dict) and inner is not None and len(inner) == 2
+                and all(py_has_type(inner[0], k) and py_has_type(inner[1], e) for k, e in x.items()))
+    if sig.startswith('a'):
+        return isinstance(x, list) and all(py_has_type(sig[1:], e) for e in x)
+    if sig.startswith('(') and sig.endswith(')'):
+        inner = split_types(sig[1:-1])
+        return (isinstance(x, (list, tuple)) and inner is not None and len(inner) == len(x)
+                and all(py_has_type(t, e) for t, e in zip(inner, x)))
     return False
 
 
 def has_type(sig, v):
-    """the tagged value is a value of DBus type `sig` (DBus specification; signatures are only required to
-    be ASCII and at most 255 long, txdbus does not validate their grammar - C19)"""
-    t = v[0]
-    if sig in INT_RANGE:
-        return t == 'I' and INT_RANGE[sig][0] <= v[1] <= INT_RANGE[sig][1]
-    if sig == 'b':
-        return t == 'B'
-    if sig == 'd':
-        return t == 'D'
-    if sig == 's':
-        return t == 'S' and '\0' not in v[1]
-    if sig == 'o':
-        return t == 'S' and valid_path(v[1])
-    if sig == 'g':
-        return t == 'S' and len(v[1]) <= 255 and is_signature(v[1])
-    if sig == 'as':
-        return t == 'L' and all('\0' not in e for e in v[1])
-    if sig == 'v':
-        return variant_ok(v)
-    return False
+    """the tagged value is a value of the DBus type `sig`"""
+    if v[0] in 'N?':
+        return False
+    return py_has_type(sig, to_py(v))
+
+
+def variant_ok(v):
+    return has_type('v', v)
 
 
 GOOD = {
@@ -212,17 +300,35 @@ GOOD = {
     'u': [0, 2**32 - 1, 70000], 'x': [-2**63, 2**63 - 1, 2**40], 't': [0, 2**64 - 1, 2**63],
     'b': [True, False], 'd': [0.0, 1.5, -2.25, 1e300, -0.0], 's': ['', 'hello', 'zz', '12', 'a b', '/a'],
     'o': ['/', '/a', '/a/b_1'], 'g': ['', 'i', 'a{sv}', 'as'], 'as': [[], ['a'], ['x', 'yz'], ['', '12']],
+    'ai': [[], [1, 2], [-5]], 'av': [[], [1, 'a'], ['x'], [True, 2.5]], 'a{sv}': [{}, {'k': 1}, {'a': 'b', 'c': 2}],
+    '(is)': [(1, 'a'), (0, '')], 'aas': [[], [['a'], ['b', 'c']], [[]]], 'ay': [[], [1, 255]],
+    'a{ss}': [{}, {'a': 'b'}],
 }
 JUNK_LOCAL = [None, 'zz', '12', -1, 256, 2**31, 2**64, -2**63 - 1, True, 3, '/a/', 'a\0b', ['a'], [], 1.5,
-              'é', 'g' * 256]
+              'é', 'g' * 256, [1, 'a'], {'k': 1}, (1, 'a'), [['a']], [300]]
+JUNK_WRAPPED = [['W', 'y', 300], ['W', 'o', 'no path'], ['W', 'q', -1], ['W', 'g', 'a'], ['W', 'b', 1]]
 WIRE_JUNK = ['zz', '12', -1, 256, 2**31, 2**63, 2**40, True, False, 3, 0, '/a/', '//', '/a b', 'a', ['a'], [],
-             1.5, 0.0, 'é', 'g' * 256, '/ok/path', '']
+             1.5, 0.0, 'é', 'g' * 256, '/ok/path', '', [1, 'a'], {'k': 1}, (1, 'a'), [['a']], [300], {}]
 
 
 def good_value(rng, sig):
+    """a value of the declared type; sometimes an instance of a wrapper class of ANOTHER type whose plain value
+    fits (Byte(7) for a 'u' property, ObjectPath('/a') for an 's' property)"""
     if sig == 'v':
         s2 = rng.choice([s for s in GOOD])
+        if rng.random() < 0.1 and s2 in 'ynqiuxtog':
+            return ['W', s2, rng.choice(GOOD[s2])]
         return from_py(rng.choice(GOOD[s2]))
+    if sig in INT_RANGE and rng.random() < 0.2:
+        for _ in range(8):
+            c = rng.choice('ynqiuxt')
+            n = rng.choice(GOOD[c] + GOOD[sig])
+            if INT_RANGE[c][0] <= n <= INT_RANGE[c][1] and INT_RANGE[sig][0] <= n <= INT_RANGE[sig][1]:
+                return ['W', c, n]
+    if sig == 's' and rng.random() < 0.2:
+        return rng.choice([['W', 'o', '/a'], ['W', 'o', '/'], ['W', 'g', 'i'], ['W', 'g', '']])
+    if sig == 'o' and rng.random() < 0.1:
+        return ['W', 'o', rng.choice(GOOD['o'])]
     return from_py(rng.choice(GOOD[sig]))
 
 
@@ -253,6 +359,8 @@ def wire_type_for(rng, v, prefer=None):
         return rng.choice(opts) if rng.random() < 0.3 else 's'
     if t == 'L':
         return 'as' if all('\0' not in e for e in v[1]) else None
+    if t in 'XTKY':
+        return 'auto' if variant_ok(v) else None     # sent with the type txdbus infers for the Python value
     return None
 
 
@@ -283,43 +391,61 @@ class Dec:
         self.o += n + 2
         return s
 
-    def value(self, sig):
-        """-> tagged value (variants as ['V', sig, tagged])"""
-        if sig == 'y':
-            return ['I', self.u('B', 1)]
-        if sig == 'b':
-            return ['B', self.u('I', 4) != 0]
-        if sig == 'n':
-            return ['I', self.u('h', 2)]
-        if sig == 'q':
-            return ['I', self.u('H', 2)]
-        if sig == 'i':
-            return ['I', self.u('i', 4)]
-        if sig == 'u':
-            return ['I', self.u('I', 4)]
-        if sig == 'x':
-            return ['I', self.u('q', 8)]
-        if sig == 't':
-            return ['I', self.u('Q', 8)]
-        if sig == 'd':
-            return ['D', self.u('Q', 8)]
-        if sig in ('s', 'o'):
-            return ['S', self.string()]
-        if sig == 'g':
-            return ['S', self.signature()]
-        if sig == 'v':
-            s = self.signature()
-            return ['V', s, self.value(s)]
-        if sig in ('as', 'av'):
+    def py(self, sig):
+        """one complete type -> Python object the way a peer sees it (struct -> list, a{..} -> dict, variant ->
+        its inner value, double -> float)"""
+        c = sig[0]
+        if c == 'y':
+            return self.u('B', 1)
+        if c == 'b':
+            return self.u('I', 4) != 0
+        if c == 'n':
+            return self.u('h', 2)
+        if c == 'q':
+            return self.u('H', 2)
+        if c == 'i':
+            return self.u('i', 4)
+        if c == 'u':
+            return self.u('I', 4)
+        if c == 'x':
+            return self.u('q', 8)
+        if c == 't':
+            return self.u('Q', 8)
+        if c == 'd':
+            return bits_dbl(self.u('Q', 8))
+        if c in 'so':
+            return self.string()
+        if c == 'g':
+            return self.signature()
+        if c == 'v':
+            return self.py(self.signature())
+        if c == 'a':
             n = self.u('I', 4)
+            el = sig[1:]
+            self.align(8 if el[0] in '({xtd' else 4 if el[0] in 'biusoa' else 2 if el[0] in 'nq' else 1)
             end = self.o + n
+            if el[0] == '{':
+                kt, vt = split_types(el[1:-1])
+                d = {}
+                while self.o < end:
+                    self.align(8)
+                    k = self.py(kt)
+                    d[k] = self.py(vt)
+                return d
             out = []
             while self.o < end:
-                e = self.value(sig[1])
-                out.append(e[1] if sig == 'as' else e)
-            if sig == 'av' and out:
-                raise ValueError('non-empty av')
-            return ['L', out]
+                out.append(self.py(el))
+            return out
+        if c == '(':
+            self.align(8)
+            return [self.py(t) for t in split_types(sig[1:-1])]
+        raise ValueError('decoder: unsupported signature %r' % sig)
+
+    def value(self, sig):
+        """top level: 'v' -> ['V', sig, tagged]; 'a{sv}' -> ['M', [(key, ['V', sig, tagged])]]; else tagged"""
+        if sig == 'v':
+            s = self.signature()
+            return ['V', s, from_py(self.py(s))]
         if sig == 'a{sv}':
             n = self.u('I', 4)
             self.align(8)
@@ -330,7 +456,7 @@ class Dec:
                 k = self.string()
                 out.append((k, self.value('v')))
             return ['M', out]
-        raise ValueError('decoder: unsupported signature %r' % sig)
+        return from_py(self.py(sig))
 
 
 def body_bytes(raw):
@@ -513,11 +639,8 @@ class Impl:
             member, sig, body = 'Get', 'ss', [op[2], op[3]]
         elif kind == 'set':
             v = to_py(op[4])
-            wrap = {'y': marshal.Byte, 'b': marshal.Boolean, 'n': marshal.Int16, 'q': marshal.UInt16,
-                    'i': marshal.Int32, 'u': marshal.UInt32, 'x': marshal.Int64, 't': marshal.UInt64,
-                    'o': marshal.ObjectPath, 'g': marshal.Signature}.get(op[5])
-            if wrap is not None:
-                v = wrap(v)
+            if op[5] in 'ybnqiuxtog':
+                v = wrapper_class(op[5])(v)
             member, sig, body = 'Set', 'ssv', [op[2], op[3], v]
         else:
             member, sig, body = 'GetAll', 's', [op[2]]
@@ -560,7 +683,8 @@ def enc_case(case):
         elif k == 'get':
             lines.append('get %d %s %s' % (op[1], hx(op[2]), hx(op[3])))
         elif k == 'set':
-            lines.append('set %d %s %s %s' % (op[1], hx(op[2]), hx(op[3]), enc_val(op[4])))
+            # the model gets what the object receives (a tuple travels as a struct and arrives as a list)
+            lines.append('set %d %s %s %s' % (op[1], hx(op[2]), hx(op[3]), enc_val(plain(op[4]))))
         elif k == 'getall':
             lines.append('getall %d %s' % (op[1], hx(op[2])))
         else:
@@ -705,6 +829,7 @@ class Oracle:
             if not has_type(ent['sig'], v):
                 self.wrote(o, i, p, ('?',))        # DESIGN C17 (iii): outside the claim
                 return
+            v = plain(v)
             self.wrote(o, i, p, ('v', v, 'local'))
             if o in self.exported:
                 if raised:
@@ -724,7 +849,7 @@ class Oracle:
         iface = op[2]
         if kind == 'set':
             p = op[3]
-            v = op[4]
+            v = plain(op[4])          # what the object receives (a tuple arrives as a list)
             if iface == '':
                 # any interface: not judged; some property called p may have changed
                 for (o2, i2, p2) in [(o, k[0], k[1]) for k in self.props if k[1] == p]:
@@ -1036,10 +1161,11 @@ def gen_ops(rng, classes, nobj, nops, wrong=0.2):
     asigs = {}
     for a, i, p, q in info:
         asigs.setdefault(a, set()).add(q[1])
-    nofloat = any(v & set('og') and v & {'d', 'v'} for v in asigs.values())
+    nofloat = any(v & set('og') and v & ({'d', 'v'} | set(CONTAINER_SIGS)) for v in asigs.values())
 
     def keep(v):
-        return not (nofloat and v[0] == 'D')
+        # str(float) / str(container) are not modelled
+        return not (nofloat and v[0] in 'DXTKY')
     ops = []
     exported = set()
     # initial assignments
@@ -1081,9 +1207,9 @@ def gen_ops(rng, classes, nobj, nops, wrong=0.2):
                 i, p = rng.choice([('org.ab', 'c'), ('org.a', 'bc'), ('org.abc', ''), ('org', '.abc'), ('org.a', 'b')])
         if r < 0.3:
             if rng.random() < 0.1:
-                v = from_py(rng.choice(JUNK_LOCAL))
-                if v[0] == 'D' and (q[1] in 'og' or asigs.get(a, set()) & set('og')):
-                    v = ['N']             # str(float) is not modelled
+                v = from_py(rng.choice(JUNK_LOCAL)) if rng.random() < 0.8 else rng.choice(JUNK_WRAPPED)
+                if v[0] in 'DXTKY' and (q[1] in 'og' or asigs.get(a, set()) & set('og')):
+                    v = ['N']             # str(float), str(container) are not modelled
             else:
                 v = good_value(rng, q[1])
             if keep(v):
@@ -1095,7 +1221,7 @@ def gen_ops(rng, classes, nobj, nops, wrong=0.2):
                 v = from_py(rng.choice(WIRE_JUNK))
                 wt = wire_type_for(rng, v)
             else:
-                v = good_value(rng, q[1])
+                v = plain(good_value(rng, q[1]))
                 wt = wire_type_for(rng, v, prefer=q[1] if rng.random() < 0.85 else None)
             if wt is None or not keep(v):
                 continue
@@ -1119,7 +1245,7 @@ def gen_matrix_cases(rng, full):
                     continue
                 f = {'name': 'org.m', 'props': [['P', sig, r, w, e]]}
                 classes = [{'ifaces': [f], 'descs': [['attr', 'P', 'org.m' if rng.random() < 0.5 else None]]}]
-                g1, g2, g3 = good_value(rng, sig), good_value(rng, sig), good_value(rng, sig)
+                g1, g2, g3 = good_value(rng, sig), good_value(rng, sig), plain(good_value(rng, sig))
                 ops = [['assign', 0, 'attr', g1], ['export', 0], ['get', 0, 'org.m', 'P'], ['getall', 0, 'org.m'],
                        ['assign', 0, 'attr', g2], ['get', 0, 'org.m', 'P']]
                 wt = wire_type_for(rng, g3, prefer=sig)
@@ -1131,7 +1257,10 @@ def gen_matrix_cases(rng, full):
                     if wt:
                         ops += [['set', 0, 'org.m', 'P', v, wt], ['get', 0, 'org.m', 'P']]
                 ops += [['get', 0, 'org.m', 'Q'], ['get', 0, 'org.n', 'P'], ['getall', 0, 'org.n'],
-                        ['getall', 0, PROPS], ['set', 0, 'org.n', 'P', g1, wire_type_for(rng, g1)]]
+                        ['getall', 0, PROPS]]
+                wt = wire_type_for(rng, g3)
+                if wt:
+                    ops.append(['set', 0, 'org.n', 'P', g3, wt])
                 cases.append({'classes': classes, 'nobj': 1, 'ops': ops})
     # unassigned and emits=const
     for sig in ['i', 's', 'as']:
